@@ -1,6 +1,7 @@
 package props
 
 import (
+	"context"
 	"fmt"
 	"math/rand"
 	"reflect"
@@ -8,6 +9,7 @@ import (
 	"runtime/debug"
 	"sort"
 	"strings"
+	"time"
 
 	"github.com/ajitpratap0/GoSQLX/pkg/gosqlx"
 	"github.com/ajitpratap0/GoSQLX/pkg/models"
@@ -211,6 +213,64 @@ func getSame(pp poolPair, ptr uintptr) reflect.Value {
 	return reflect.Value{}
 }
 
+// c09Distinct: after parsing and releasing trees of every shape, objects taken from a pool at the same time must be
+// different objects (a node put back twice would be handed to two holders).
+func c09Distinct(a *ChildArgs) {
+	runtime.GOMAXPROCS(1)
+	debug.SetGCPercent(-1)
+	pairs := poolPairs(a)
+	avoid := mon.AvoidFeatures()
+	fixed := []string{
+		"SELECT * FROM (SELECT a FROM t) d JOIN u ON d.a = u.a", "SELECT * FROM t JOIN (SELECT a FROM u) d ON d.a = t.a", "SELECT * FROM (SELECT a FROM t) d",
+		"SELECT * FROM (SELECT a FROM t) d LEFT JOIN (SELECT b FROM u) e ON d.a = e.b JOIN v ON v.c = d.a", "SELECT a FROM t WHERE a IN (SELECT b FROM u) AND EXISTS (SELECT 1 FROM v)",
+		"WITH c AS (SELECT 1) SELECT * FROM c UNION SELECT 2", "INSERT INTO t (a) SELECT b FROM (SELECT b FROM u) x", "SELECT CASE WHEN a THEN (SELECT 1) END, f(a) OVER (PARTITION BY b) FROM t",
+		"UPDATE t SET a = (SELECT MAX(b) FROM u) WHERE c IS NOT NULL", "DELETE FROM t WHERE NOT EXISTS (SELECT 1 FROM u WHERE u.a = t.a)", "SELECT a FROM t WHERE b BETWEEN 1 AND 2 OR c LIKE 'x%'"}
+	g := gen.New(rand.New(rand.NewSource(a.Seed*7919+11)), avoid)
+	n := 150
+	if !a.Quick() {
+		n = 3000
+	}
+	for i := 0; i < n+len(fixed); i++ {
+		var sql string
+		if i < len(fixed) {
+			sql = fixed[i]
+		} else {
+			sql = gen.Plain(g.Statement(2).Toks)
+		}
+		t, err := gosqlx.Parse(sql)
+		if err != nil {
+			continue
+		}
+		ast.ReleaseAST(t)
+		a.Rec.Count("evaluations", 1)
+		for _, pp := range pairs {
+			seen := map[uintptr]int{}
+			var taken []reflect.Value
+			for k := 0; k < 12; k++ {
+				v := pp.Get.Call(nil)[0]
+				taken = append(taken, v)
+				if j, dup := seen[v.Pointer()]; dup {
+					a.Rec.Viol("C09/pool-aliased/"+pp.Name, "every container obtained from the pools is indistinguishable from a fresh one (two holders never share one object)",
+						fmt.Sprintf("after parsing and releasing a tree, Get%s returned the same object as get #%d and get #%d", pp.Name, j, k), map[string]interface{}{"sql": sql, "pool": pp.Name})
+					break
+				}
+				seen[v.Pointer()] = k
+			}
+			// give back each distinct object once
+			done := map[uintptr]bool{}
+			for _, v := range taken {
+				if !done[v.Pointer()] {
+					done[v.Pointer()] = true
+					if v.Elem().Kind() == reflect.Struct {
+						v.Elem().Set(reflect.Zero(v.Elem().Type()))
+					}
+					pp.Put.Call([]reflect.Value{v})
+				}
+			}
+		}
+	}
+}
+
 func c09Cleanliness(a *ChildArgs) {
 	runtime.GOMAXPROCS(1)
 	debug.SetGCPercent(-1)
@@ -328,6 +388,7 @@ func c09Cleanliness(a *ChildArgs) {
 // ---------- ownership ----------
 
 type held struct {
+	Ptr  interface{} // identity of the held object (for trees), so that equal-looking trees are told apart
 	What string
 	Snap string
 	Get  func() string
@@ -359,14 +420,42 @@ func c09Ownership(a *ChildArgs, workers int) {
 				return true
 			}
 			for s := 0; s < steps; s++ {
-				op := []string{"parse-hold", "parse-hold", "tokenize-hold", "comments-hold", "parse-release", "format", "extract-hold", "scan-hold", "release-held-tree", "pool-churn", "parse-with-comments-format"}[r.Intn(11)]
+				op := []string{"parse-hold", "parse-hold", "tokenize-hold", "comments-hold", "parse-release", "format", "extract-hold", "scan-hold", "release-held-tree", "pool-churn", "parse-with-comments-format",
+					"batch-hold", "rejected-calls", "release-held-tree"}[r.Intn(14)]
 				sql := gen.Plain(g.Statement(2).Toks)
 				switch op {
 				case "parse-hold":
 					if t, err := gosqlx.Parse(sql); err == nil {
 						trees = append(trees, t)
 						tt := t
-						holds = append(holds, held{What: "tree", Snap: dump.Dump(tt), Get: func() string { return dump.Dump(tt) }})
+						holds = append(holds, held{Ptr: tt, What: "tree", Snap: dump.Dump(tt), Get: func() string { return dump.Dump(tt) }})
+					}
+				case "batch-hold":
+					// a batch with a repeated member: every result is the caller's own tree
+					other := gen.Plain(g.Statement(1).Toks)
+					if as, err := gosqlx.ParseMultiple([]string{sql, other, sql}); err == nil {
+						for i := range as {
+							for j := i + 1; j < len(as); j++ {
+								if as[i] == as[j] {
+									a.Rec.Viol("C09/own/batch/aliased-results", "returned values belong to the caller", fmt.Sprintf("ParseMultiple returned the same *AST for members %d and %d", i, j), map[string]interface{}{"history": hist, "sql": sql})
+								}
+							}
+						}
+						for _, t := range as {
+							tt := t
+							trees = append(trees, tt)
+							holds = append(holds, held{Ptr: tt, What: "tree", Snap: dump.Dump(tt), Get: func() string { return dump.Dump(tt) }})
+						}
+					}
+				case "rejected-calls":
+					// calls that return no tree must not leave anything shared behind: statement-less and malformed inputs
+					// through every kind of entry point (plain, context, timeout, recovery)
+					for _, bad := range []string{";", " ; ; ", "", "-- only a comment", "SELECT FROM", "SELECT a FROM t WHERE ]"} {
+						_, _ = gosqlx.Parse(bad)
+						_, _ = gosqlx.ParseWithContext(context.Background(), bad)
+						_, _ = gosqlx.ParseWithTimeout(bad, time.Second)
+						_, _ = gosqlx.ParseWithRecovery(bad)
+						_ = gosqlx.Validate(bad)
 					}
 				case "tokenize-hold":
 					tk.Reset()
@@ -417,10 +506,9 @@ func c09Ownership(a *ChildArgs, workers int) {
 						victim := trees[k]
 						trees = append(trees[:k], trees[k+1:]...)
 						var keep []held
-						vs := dump.Dump(victim)
 						dropped := false
 						for _, h := range holds {
-							if !dropped && h.What == "tree" && h.Snap == vs {
+							if !dropped && h.What == "tree" && h.Ptr == interface{}(victim) {
 								dropped = true
 								continue
 							}
@@ -470,6 +558,7 @@ func c09Child(a *ChildArgs) {
 	switch a.Phase {
 	case "cleanliness":
 		c09Cleanliness(a)
+		c09Distinct(a)
 	case "ownership":
 		runtime.GOMAXPROCS(1)
 		c09Ownership(a, 1)
